@@ -270,7 +270,6 @@ Definition layout_ok (s : sstate) (e : emod) (x : sp) : bool :=
 Definition in_domain (c : ncase) : bool :=
   let s := fst (nspec_final c) in
   sp_ok s && ss_ok (sp_s s) && negb (ss_coll (sp_s s)) &&
-  negb (known_D07 (to_rcase c)) &&     (* replace_import_in_module with ImportsID <> FunctionID acts on another function (C10) *)
   (if no_api_panic c then naming_panic c
    else match no_enc c with
         | Some (e, _) => layout_ok (sp_s s) e SF && layout_ok (sp_s s) e SG
